@@ -123,8 +123,11 @@ Proof.
   intros r Hr _. apply undefer_row_ok. pose proof (inv_sw _ HI) as Hsw. apply Hsw. exact Hr.
 Qed.
 
+(* both forms of the trigger (first form of 84081f2 and its refinement) *)
+Lemma undefer_post_with_inv hh refined s s' : Inv hh s' -> Inv hh (undefer_post_with refined s s').
+Proof. intros HI. unfold undefer_post_with. apply undefer_fold_inv. exact HI. Qed.
 Lemma undefer_post_inv hh s s' : Inv hh s' -> Inv hh (undefer_post s s').
-Proof. intros HI. unfold undefer_post. apply undefer_fold_inv. exact HI. Qed.
+Proof. apply undefer_post_with_inv. Qed.
 
 Lemma step_op_x0_inv hh o s :
   Inv hh s -> (hh = true -> protocol_hold_x_b s o = true) -> wpg false (step_op_x0 o s) (fun s' => Inv hh s').
